@@ -532,7 +532,14 @@ impl fmt::Display for MediaPlaylist<'_> {
                         // an old key might be removed:
                         for k in &available_keys {
                             if let ExtXKey(Some(dk)) = k {
-                                if dk.format == decryption_key.format && key != *k {
+                                // an absent KEYFORMAT is the identity format
+                                if dk.format.as_ref().unwrap_or(&KeyFormat::Identity)
+                                    == decryption_key
+                                        .format
+                                        .as_ref()
+                                        .unwrap_or(&KeyFormat::Identity)
+                                    && key != *k
+                                {
                                     remove_key = Some(k.clone());
                                     break;
                                 }
@@ -617,7 +624,10 @@ fn parse_media_playlist<'a>(
                         if let ExtXKey(Some(decryption_key)) = &key {
                             for old_key in &available_keys {
                                 if let ExtXKey(Some(old_decryption_key)) = &old_key {
-                                    if old_decryption_key.format == decryption_key.format {
+                                    // an absent KEYFORMAT is the identity format
+                                    if old_decryption_key.format.as_ref().unwrap_or(&KeyFormat::Identity)
+                                        == decryption_key.format.as_ref().unwrap_or(&KeyFormat::Identity)
+                                    {
                                         // remove the old key
                                         remove = Some(old_key.clone());
 
